@@ -23,4 +23,33 @@ let c07 args =
           (Model.expected_leaves t f) ]
   | _ -> raise (Bad "c07 args")
 
-let () = register "c07" c07
+(* (c07_multi FILE TSTRS OWN) -> parser::parse with multi_file = true (Model.MultiFile.parse_file_multi, crate OWN, no ignored
+   types, identity hash order):  (panic site) | (err e) | (ok none) | (ok (some (nstructs nenums naliases nconsts nerrors ((crate name)..)))) *)
+let c07_multi args =
+  match args with
+  | [file; tstrs; own] ->
+    let f = to_file file and tstr = to_tstr tstrs in
+    (match Model.parse_file_multi uc tstr [] (to_str own) [] (fun l -> l) f with
+     | Model.Panic s -> L [A "panic"; A (coqstring s)]
+     | Model.Err e -> L [A "err"; perr_to_sx e]
+     | Model.Ok None -> L [A "ok"; A "none"]
+     | Model.Ok (Some pd) ->
+       let n l = A ("n" ^ string_of_int (List.length l)) in
+       L [A "ok"; L [A "some"; L [n pd.Model.p_structs; n pd.Model.p_enums; n pd.Model.p_aliases; n pd.Model.p_consts; n pd.Model.p_errors;
+                                  of_list (fun i -> L [str_to_atom i.Model.base_crate; str_to_atom i.Model.type_name]) pd.Model.p_imports]]])
+  | _ -> raise (Bad "c07_multi args")
+
+(* (c07_error_classes) -> ((Constructor item_rejection config_rejection)..): the extracted Spec predicates on one value of every
+   constructor of perr (they do not look at the payload) *)
+let c07_error_classes _ =
+  let s = [] in
+  let all = [ Model.ESyn; Model.EUnsupportedType []; Model.EUnexpectedToken; Model.EParameterizedTuple; Model.ENumericLiteral;
+              Model.EUnsupportedLanguage s; Model.EUnsupportedTypeP s; Model.EComplexTupleStruct; Model.EMultipleUnnamed;
+              Model.ESerdeTagNotAllowed s; Model.ESerdeContentNotAllowed s; Model.ESerdeTagRequired s; Model.ESerdeContentRequired s;
+              Model.EConstExprInvalid; Model.EConstTypeInvalid; Model.ESerdeFlatten; Model.EIO; Model.EGenericsForbiddenInGo s;
+              Model.EGenericKeyForbiddenInTS s; Model.EUnsupportedSpecialType s; Model.EConstUnsupported s; Model.EPackageRequired ] in
+  of_list (fun e ->
+    let name = match perr_to_sx e with A a -> A a | L (A a :: _) -> A a | x -> x in
+    L [name; of_bool (Model.c07_item_rejection e); of_bool (Model.c07_config_rejection e)]) all
+
+let () = register "c07" c07; register "c07_multi" c07_multi; register "c07_error_classes" c07_error_classes
